@@ -545,6 +545,25 @@ func (g *progGen) forStmt(depth int) []*tw.Stmt {
 		}
 		g.Feat["for-step"]++
 	}
+	// a fault in one of the clauses fails the render like a fault anywhere else
+	if rapid.IntRange(0, 14).Draw(g.rt, "clauseFault") == 0 {
+		bad := rapid.SampledFrom([]*tw.Expr{tw.Var("zzUnknown"), tw.Bin("/", intLit(1), intLit(0)), tw.Bin("+", intLit(1), tw.Str("s"))}).Draw(g.rt, "clauseFaultExpr")
+		switch rapid.IntRange(0, 2).Draw(g.rt, "faultyClause") {
+		case 0:
+			st.Init = bad
+		case 1:
+			st.Cond = tw.Bin(op, tw.Var(name), bad)
+			if post == tw.EInc && rapid.Bool().Draw(g.rt, "faultInLaterPass") {
+				// fine at entry, division by zero when the condition is evaluated for the second pass
+				st.Cond = tw.Bin("<", tw.Bin("/", intLit(0), tw.Bin("-", intLit(int64(a+1)), tw.Var(name))), intLit(1))
+				st.PostName, st.Post = "", tw.Un(tw.EInc, tw.Var(name)) // step 1: the zero divisor is met
+			}
+		default:
+			st.PostName, st.Post = "", tw.Bin("+", tw.Var(name), bad)
+		}
+		g.Feat["for-clause-fault"]++
+	}
+	stepInBody := st.PostName == "" && st.Post.Kind != tw.EBin && op != "!=" && rapid.IntRange(0, 7).Draw(g.rt, "stepInBody") == 0
 	g.push()
 	g.bind(name, refint.KInt)
 	g.loopDepth++
@@ -552,6 +571,17 @@ func (g *progGen) forStmt(depth int) []*tw.Stmt {
 	g.eachBody = false
 	// the loop variable must not be assigned in the body (termination is by construction)
 	st.Body = g.blockAvoiding(depth-1, name)
+	if stepInBody {
+		// no post clause: the body itself steps the variable, as its first statement
+		// (a @continue further down must not skip it)
+		bop := "+"
+		if post == tw.EDec {
+			bop = "-"
+		}
+		st.Post = nil
+		st.Body = append([]*tw.Stmt{tw.Assign(name, tw.Bin(bop, tw.Var(name), intLit(1)))}, st.Body...)
+		g.Feat["for-step-in-body"]++
+	}
 	g.eachBody = wasEach
 	g.loopDepth--
 	g.pop()
